@@ -28,6 +28,11 @@ pub fn generate(prop: &str, tier: &str, seed: u64, out: &str, shards: usize, his
             }
         }
         "C10" | "C11" => crate::checks2::gen_shapes(&asm, &mut mach, &mut rng, &mut sh, histories.expect("shape file"), thorough),
+        "C13" => {
+            crate::checks2::gen_macros(&asm, &mut sh, histories.expect("macro case file"));
+            let depths: Vec<usize> = if thorough { vec![1, 2, 8, 64, 256, 1024, 4096] } else { vec![1, 2, 8, 32, 64] };
+            crate::checks2::gen_chains(&mut sh, &depths);
+        }
         "C07" => crate::checks2::gen_c07(&asm, &mut mach, &mut rng, &mut sh, thorough),
         "C09" => crate::checks2::gen_c09(&asm, &mut mach, &mut rng, &mut sh, thorough),
         _ => {
